@@ -7,6 +7,10 @@
 #include <tao/pegtl/contrib/raw_string.hpp>
 #include <tao/pegtl/contrib/rep_one_min_max.hpp>
 #include <tao/pegtl/contrib/uint8.hpp>
+#include <tao/pegtl/contrib/if_then.hpp>
+#include <tao/pegtl/contrib/predicates.hpp>
+#include <tao/pegtl/contrib/rep_string.hpp>
+#include <tao/pegtl/contrib/separated_seq.hpp>
 
 namespace mon
 {
